@@ -56,4 +56,21 @@ def docTable (name : String) : Ddb := { table := name, hashKey := "Id", rangeKey
 /-- the SQL database of the given dialect holding the documented, empty `encryption_key` table -/
 def docSql (d : Dialect) : Sql := { dialect := d }
 
+/-- how a SQL metastore is constructed: without option, or with `WithSQLMetastoreDBType(t)` -/
+inductive SqlSetup | default | mysql | postgres | oracle
+deriving DecidableEq, Repr, Inhabited
+
+def SqlSetup.dbType (F : Facts) : SqlSetup → Option String
+  | .default => none | .mysql => some F.sql.mysql | .postgres => some F.sql.postgres | .oracle => some F.sql.oracle
+
+/-- the statements of `NewSQLMetastore(db, opts…)` -/
+def SqlSetup.ms (F : Facts) (s : SqlSetup) : SqlMs := newSqlMs F.sql (s.dbType F)
+
+/-- the placeholder dialect of the database behind it -/
+def SqlSetup.dialect : SqlSetup → Dialect
+  | .default => .mysql | .mysql => .mysql | .postgres => .postgres | .oracle => .oracle
+
+def Facts.codec1 (F : Facts) : DdbCodec := codecV1 F.v1 F.v1Enc F.rowNames
+def Facts.codec2 (F : Facts) : DdbCodec := codecV2 F.v2Item F.v2Names
+
 end AsherahVerif.Metastore
